@@ -101,15 +101,12 @@ theorem outOk_self (pop : POp) (e : POut) (h : e.pick = match pop with | .observ
   unfold outOk
   cases pop <;> simp_all [observationOk_take]
 
-/-- inside the regime the model's answer to every operation is the prescribed one -/
-theorem pout_eq_expOut (cfg : Cfg) (pre : List (Nat × Op)) (st : Stage) (now : Nat) (pop : POp)
-    (hr : regime cfg pre now (readKeys st pop) = true) :
+/-- the model's answer to an operation is the prescribed one as soon as `IsPending` is the prescribed one for the keys the
+    operation asks about and `IsTransmissionConfirmed` for every key -/
+private theorem pout_eq_expOut_of (cfg : Cfg) (pre : List (Nat × Op)) (st : Stage) (now : Nat) (pop : POp)
+    (hpass : ∀ key ∈ readKeys st pop, passes (run cfg State.init pre) now key = expPasses (ghost cfg (pre.map (·.2))) key)
+    (hconf : ∀ key, isConfirmed (run cfg State.init pre) now key = expConfirmed (ghost cfg (pre.map (·.2))) key) :
     pout cfg { coord := run cfg State.init pre, stage := st } now pop = expOut (ghost cfg (pre.map (·.2))) st pop := by
-  simp only [regime, Bool.and_eq_true, List.all_eq_true] at hr
-  obtain ⟨⟨hc, hp⟩, hw⟩ := hr
-  have hcan : ∀ p ∈ pre, opCanon p.2 = true := fun p hp' => hc p hp'
-  have hpass := passes_eq cfg _ now pre hw hcan
-  have hconf := (answers_eq_expected cfg _ now pre hw hcan).2
   cases pop with
   | co op => rfl
   | head b a e => rfl
@@ -121,7 +118,7 @@ theorem pout_eq_expOut (cfg : Cfg) (pre : List (Nat × Op)) (st : Stage) (now : 
       unfold observeIds expObserve
       apply List.filter_congr
       intro id hid
-      exact hpass _ (hp _ (by simp only [readKeys, List.mem_map]; exact ⟨id, hid, rfl⟩))
+      exact hpass _ (by simp only [readKeys, List.mem_map]; exact ⟨id, hid, rfl⟩)
     simp only [pout, expOut, this]
   | transmit keys =>
     have : shouldTransmit (run cfg State.init pre) now keys = expTransmit (ghost cfg (pre.map (·.2))) keys := by
@@ -134,8 +131,31 @@ theorem pout_eq_expOut (cfg : Cfg) (pre : List (Nat × Op)) (st : Stage) (now : 
       congr 1
       apply List.filter_congr
       intro key hkey
-      exact hpass _ (hp _ (by simpa [readKeys] using hkey))
+      exact hpass _ (by simpa [readKeys] using hkey)
     simp only [pout, expOut, this]
+
+/-- inside the regime the model's answer to every operation is the prescribed one -/
+theorem pout_eq_expOut (cfg : Cfg) (pre : List (Nat × Op)) (st : Stage) (now : Nat) (pop : POp)
+    (hr : regime cfg pre now (readKeys st pop) = true) :
+    pout cfg { coord := run cfg State.init pre, stage := st } now pop = expOut (ghost cfg (pre.map (·.2))) st pop := by
+  simp only [regime, Bool.and_eq_true, List.all_eq_true] at hr
+  obtain ⟨⟨hc, hp⟩, hw⟩ := hr
+  have hcan : ∀ p ∈ pre, opCanon p.2 = true := fun p hp' => hc p hp'
+  exact pout_eq_expOut_of cfg pre st now pop (fun key hk => passes_eq cfg _ now pre hw hcan key (hp key hk))
+    (answers_eq_expected cfg _ now pre hw hcan).2
+
+/-- … and over several lockout windows: if no lock had run out when an operation of `pre` was processed and every id the
+    operation asks about was never blocked or changed its blocking state at most one window ago, `Observe()`, `Report()`'s
+    filter and `ShouldTransmitAcceptedReport` answer what the whole history prescribes (`lockout_renewed`) -/
+theorem pout_eq_expOut_live (cfg : Cfg) (pre : List (Nat × Op)) (st : Stage) (now : Nat) (pop : POp) (tg : TGhost)
+    (hr : liveRegime cfg pre now (readKeys st pop) = some tg)
+    (hl : (readKeys st pop).all (probeLive cfg.window tg now) = true) :
+    pout cfg { coord := run cfg State.init pre, stage := st } now pop = expOut (ghost cfg (pre.map (·.2))) st pop := by
+  obtain ⟨_, a1, a2⟩ := lockout_renewed cfg pre now _ tg hr
+  simp only [List.all_eq_true] at hl
+  refine pout_eq_expOut_of cfg pre st now pop (fun key hk => ?_) a2
+  unfold passes expPasses
+  rw [a1 key hk (hl key hk)]
 
 /-- `Observe()` — on every call, whatever it answered for the same staged head before — returns exactly the staged
     ids whose lockout is not running according to the history (no locked id leaks, no free id is withheld) -/
@@ -210,12 +230,25 @@ private theorem readsOk_model (cfg : Cfg) (h : List (Nat × POp)) (pre : List (N
     simp only [pouts, readsOk, Bool.and_eq_true]
     constructor
     · unfold readOk
-      by_cases hr : regime cfg pre t (readKeys st pop) = true
-      · rw [pout_eq_expOut cfg pre st t pop hr]
-        simp only [hr, Bool.not_true, Bool.false_or]
-        apply outOk_self
-        cases pop <;> rfl
-      · simp [hr]
+      rw [Bool.and_eq_true]
+      constructor
+      · by_cases hr : regime cfg pre t (readKeys st pop) = true
+        · rw [pout_eq_expOut cfg pre st t pop hr]
+          simp only [hr, Bool.not_true, Bool.false_or]
+          apply outOk_self
+          cases pop <;> rfl
+        · simp [hr]
+      · unfold liveReadOk
+        cases hr : liveRegime cfg pre t (readKeys st pop) with
+        | none => rfl
+        | some tg =>
+          simp only
+          by_cases hl : (readKeys st pop).all (probeLive cfg.window tg t) = true
+          · rw [pout_eq_expOut_live cfg pre st t pop tg hr hl]
+            simp only [hl, Bool.not_true, Bool.false_or]
+            apply outOk_self
+            cases pop <;> rfl
+          · simp [hl]
     · have hs := pstep_coord cfg { coord := run cfg State.init pre, stage := st } t pop
       have : pstep cfg { coord := run cfg State.init pre, stage := st } t pop =
           { coord := run cfg State.init (pre ++ (flat pop).map fun op => (t, op)), stage := stageStep st pop } := by
